@@ -2,13 +2,50 @@
 from checks.worldcheck import Spec, replayed_delivery
 
 PROP = "C03"
+ERR = {"kind": "client", "status": 500, "code": "ServiceException", "message": "boom"}
+
+
+def explicit(tier, seed):
+    """Batch-boundary and failure shapes: records that cannot share a batch (overflow queue), slow backend, and a failing
+    request that stays in flight while further blocking records queue up behind it."""
+    import random
+
+    rng = random.Random(seed)
+    i = 0
+    shapes = []
+    for nb, size in ((2, 450), (3, 300), (3, 450), (4, 260)):
+        brs = [{"body": [{"k": "step", "script": [{"do": "ok", "big": size * 1024}]}, {"k": "step", "val": b}], "result": "r%d" % b} for b in range(nb)]
+        shapes.append(("par-big-%dx%d" % (nb, size), [{"k": "par", "branches": brs, "cfg": {"preset": "all_completed"}}, {"k": "step", "val": "end"}]))
+    shapes.append(("seq-big", [{"k": "step", "script": [{"do": "ok", "big": 800 * 1024}]}, {"k": "step", "script": [{"do": "ok", "big": 760 * 1024}], "sem": "most"},
+                               {"k": "step", "val": 1}]))
+    shapes.append(("seq-small", [{"k": "step", "val": 1}, {"k": "step", "val": 2, "sem": "most"}, {"k": "wait", "s": 1}, {"k": "cb"}, {"k": "step", "val": 3}]))
+    shapes.append(("par-small", [{"k": "par", "branches": [{"body": [{"k": "step", "val": b}, {"k": "step", "val": b + 10}]} for b in range(3)]},
+                                 {"k": "wfc", "init": 0, "decisions": [("cont", 1), ("stop",)]}]))
+    reps = 2 if tier == "quick" else 12
+    for name, body in shapes:
+        for r in range(reps):
+            yield {"label": "boundary-" + name, "prog": {"body": body}, "prog_seed": 23000 + i, "pattern": {"p": "plain"},
+                   "latency_ms": rng.choice([(0, 3), (5, 15), (10, 40)]), "max_inv": 20}
+            i += 1
+        for k in range(1, 7 if tier == "quick" else 12):
+            for delay in (0, 25):
+                yield {"label": "fault-" + name, "prog": {"body": body}, "prog_seed": 23000 + i, "pattern": {"p": "plain"}, "max_inv": 20,
+                       "faults": [{"match": {"op": "checkpoint", "n": k}, "err": ERR, "when": rng.choice(["before", "before", "after"]), "delay_ms": delay}],
+                       "opts": {"hang_s": 3.0}}
+                i += 1
+
+
 SPEC = Spec(
     PROP,
     level="exploration",
     rule="random programs (all nine operation kinds, nesting<=3) x {uninterrupted with random pagination/latency, every single "
     "crash point of a small-program corpus, random multi-crash, asynchronous SIGKILL, yield injection}; every ret/exc delivered to user code and every PENDING outcome is checked, at the instant the single-threaded parent receives it, against the backend table (terminal record / armed wake source / EXECUTION record). Non-trivial = at least one delivery was checked. "
-    "A class = (program shape hash, interruption pattern, event kind at which the crash landed).",
+    "Additional hand-written shapes: parallel steps whose 260-450 KB results cannot share a 750 KB batch (overflow queue) under 0-40 ms "
+    "backend latency, 800 KB sequential steps, and a failing checkpoint request (answered at once or left in flight 25 ms while "
+    "further blocking records queue up) at every call position. A class = (program shape hash, interruption pattern, event kind at "
+    "which the crash landed).",
     deciding=lambda r: True,
+    explicit=explicit,
 )
 cases = SPEC.cases
 run_case = SPEC.run_case
